@@ -57,6 +57,7 @@ def required(tier):
         "with_repetition": 30,
         "with_explicit_empty": 30,
         "with_subdirectories": 30,
+        "with_keyword": 20,
     }
     for s in SHAPES:
         d["shape." + s] = 10
@@ -148,6 +149,9 @@ def gen_modular(rng):
                 alt.append(("n", t2, text, ""))
             override = (tgt, [alt, [("t", rng.choice(TERMS["root"])), ("t", rng.choice(TERMS["root"]))]])
             feats.add("override")
+    if rng.random() < 0.2:
+        # KEYWORD declared in the root applies to the string terminals of every file
+        feats.add("keyword")
     dirs = {f: "" for f in files}
     if rng.random() < 0.3:
         for f in files:
@@ -247,6 +251,9 @@ def file_texts(m):
         if f == "root" and m["override"]:
             tgt, alts = m["override"]
             lines.append("%s: %s;" % (m["fqn"][tgt], " | ".join(alt_text(a) for a in alts)))
+        if f == "root" and "keyword" in m["feats"]:
+            lines.append("terminals")
+            lines.append("KEYWORD: /\\w+/;")
         out[f] = "\n".join(lines) + "\n"
     return out
 
@@ -282,7 +289,10 @@ def flatten(m):
             alts.append(" ".join(('"%s"' % x[1]) if x[0] == "t" else (flat_name(*x[1]) + x[3]) for x in alt) if alt else "EMPTY")
             prods.append((flat_name(*k), tuple(x[1] if x[0] == "t" else flat_name(*x[1]) for x in alt)))
         lines.append("%s: %s;" % (flat_name(*k), " | ".join(alts)))
-    g = None if has_rep else cfg.G(prods, flat_name("root", "S"))
+    g = None if (has_rep or "keyword" in m["feats"]) else cfg.G(prods, flat_name("root", "S"))
+    if "keyword" in m["feats"]:
+        lines.append("terminals")
+        lines.append("KEYWORD: /\\w+/;")
     return g, "\n".join(lines), reach, len(prods)
 
 
@@ -350,7 +360,7 @@ def one(ctx):
     ctx.count("grammars")
     ctx.count("shape." + m["shape"])
     for ft in m["feats"]:
-        ctx.count({"alias": "with_alias", "override": "with_override", "nested": "with_nested_reference", "rep": "with_repetition", "empty": "with_explicit_empty", "subdirs": "with_subdirectories"}[ft])
+        ctx.count({"alias": "with_alias", "override": "with_override", "nested": "with_nested_reference", "rep": "with_repetition", "empty": "with_explicit_empty", "subdirs": "with_subdirectories", "keyword": "with_keyword"}[ft])
     if (lr is None) != (flr is None):
         ctx.case((str(texts), "lr-build"), True)
         kf2 = kf
@@ -383,6 +393,9 @@ def one(ctx):
     inputs = list(cfg.all_strings(alphabet, maxlen))
     if len(inputs) > 400:
         inputs = [w for w in inputs if len(w) <= 2] + rng.sample(inputs, 300)
+    if "keyword" in m["feats"]:
+        # keywords must be separated: spaced and unspaced variants
+        inputs = inputs[:150] + [" ".join(w) for w in inputs[:250]] + ["".join(ch + rng.choice(["", " "]) for ch in w) for w in inputs[:150]]
     for w in inputs:
         case = dict(case0, input=w)
         a = glrobs.parse_glr(glr, w)
